@@ -158,7 +158,12 @@ pub fn id_problems(c: &Case) -> Option<Vec<(String, String)>> {
     for o in &occurrences {
         if !carried.contains(&(o.byte, o.end_byte())) {
             let li = o.lex.unwrap_or(0);
-            let prev = if li > 0 { c.lx.v[li - 1].text.to_uppercase() } else { "<start>".into() };
+            // context = the nearest preceding block / structure keyword (qualifiers and names are skipped)
+            let prev = (0..li)
+                .rev()
+                .map(|k| c.lx.v[k].text.to_uppercase())
+                .find(|t| matches!(t.as_str(), "VAR" | "VAR_INPUT" | "VAR_OUTPUT" | "VAR_IN_OUT" | "VAR_EXTERNAL" | "VAR_GLOBAL" | "VAR_ACCESS" | "VAR_CONFIG" | "TYPE" | "STRUCT" | ":" | ":=" | "(" | "FROM" | "TO" | "WITH" | "ON" | "PROGRAM" | "FUNCTION" | "FUNCTION_BLOCK" | "CONFIGURATION" | "RESOURCE" | "TASK" | "STEP" | "INITIAL_STEP" | "ACTION" | "TRANSITION"))
+                .unwrap_or_else(|| "<start>".into());
             out.push((format!("id-occurrence-not-carried/after-{}", prev), format!("identifier `{}` at {}..{} (after `{}`) is carried by no Id of the library", o.text, o.byte, o.end_byte(), prev)));
         }
     }
